@@ -1,0 +1,201 @@
+//go:build verif
+
+package lsm
+
+// Verification-only accessors (build tag `verif`): explicit, synchronous maintenance steps and
+// a dump of the LSM shape for the correspondence harness of /verif (engine `lsm`).
+// Nothing here is compiled into a normal build.
+
+import (
+	"encoding/hex"
+	"fmt"
+	"sort"
+	"strings"
+	"time"
+
+	"github.com/feichai0017/NoKV/kv"
+	"github.com/feichai0017/NoKV/lsm/compact"
+	"github.com/feichai0017/NoKV/utils"
+)
+
+// VerifStopCompactors terminates the background compaction workers (they exit on the closer's
+// signal) and installs a fresh closer so that Close keeps working.  Must be called while no
+// API call is in flight.
+func (lsm *LSM) VerifStopCompactors() {
+	old := lsm.closer
+	old.Close()
+	lsm.closer = utils.NewCloser()
+}
+
+// VerifRotate seals the active memtable without scheduling its flush.
+func (lsm *LSM) VerifRotate() int {
+	lsm.lock.Lock()
+	lsm.rotateLocked()
+	n := len(lsm.immutables)
+	lsm.lock.Unlock()
+	return n
+}
+
+// VerifImmutables returns the number of sealed memtables.
+func (lsm *LSM) VerifImmutables() int {
+	lsm.lock.RLock()
+	defer lsm.lock.RUnlock()
+	return len(lsm.immutables)
+}
+
+// VerifFlushOldest hands the oldest sealed memtable to the flush worker and waits until the
+// worker has installed it (or dropped it, when empty).  Returns false when there is none.
+func (lsm *LSM) VerifFlushOldest() (bool, error) {
+	lsm.lock.RLock()
+	if len(lsm.immutables) == 0 {
+		lsm.lock.RUnlock()
+		return false, nil
+	}
+	mt := lsm.immutables[0]
+	lsm.lock.RUnlock()
+	lsm.submitFlush(mt)
+	deadline := time.Now().Add(20 * time.Second)
+	for {
+		lsm.lock.RLock()
+		still := false
+		for _, imm := range lsm.immutables {
+			if imm == mt {
+				still = true
+			}
+		}
+		lsm.lock.RUnlock()
+		if !still {
+			return true, nil
+		}
+		if time.Now().After(deadline) {
+			return true, fmt.Errorf("flush of segment %d did not finish", mt.segmentID)
+		}
+		time.Sleep(50 * time.Microsecond)
+	}
+}
+
+// VerifWaitFlushIdle waits until every sealed memtable that was already submitted (recovery
+// submits all of them) has been flushed.
+func (lsm *LSM) VerifWaitFlushIdle() error {
+	deadline := time.Now().Add(20 * time.Second)
+	for lsm.VerifImmutables() > 0 {
+		if time.Now().After(deadline) {
+			return fmt.Errorf("flush queue not idle")
+		}
+		time.Sleep(50 * time.Microsecond)
+	}
+	return nil
+}
+
+// VerifBaseLevel is the level L0 tables are moved to.
+func (lsm *LSM) VerifBaseLevel() int { return lsm.levels.levelTargets().BaseLevel }
+
+// VerifCompact runs one compaction of the given kind synchronously through the real
+// planner + executor (levelManager.doCompact):
+//
+//	l0move  L0 -> ingest buffer of the base level (fillTablesL0ToLbase + moveToIngest)
+//	drain   ingest buffer of the base level -> its main tables (IngestDrain)
+//	keep    ingest buffer merge that stays in the ingest buffer (IngestKeep)
+//
+// It returns "ok" or "nothing" (planner found nothing to do).
+func (lsm *LSM) VerifCompact(kind string) (string, error) {
+	lm := lsm.levels
+	base := lm.levelTargets().BaseLevel
+	var p compact.Priority
+	switch kind {
+	case "l0move":
+		// compactor id 1: no fallback to L0->L0
+		p = compact.Priority{Level: 0}
+	case "drain":
+		p = compact.Priority{Level: base, IngestMode: compact.IngestDrain, Score: 1, Adjusted: 1}
+	case "keep":
+		p = compact.Priority{Level: base, IngestMode: compact.IngestKeep, Score: 1, Adjusted: 1}
+	default:
+		return "", fmt.Errorf("unknown compaction kind %q", kind)
+	}
+	err := lm.doCompact(1, p)
+	if err == utils.ErrFillTables {
+		return "nothing", nil
+	}
+	if err != nil {
+		return "", err
+	}
+	return "ok", nil
+}
+
+func verifTableDesc(t *table) string {
+	_, minU, minTs := kv.SplitInternalKey(t.MinKey())
+	_, maxU, maxTs := kv.SplitInternalKey(t.MaxKey())
+	cfMin, _, _ := kv.SplitInternalKey(t.MinKey())
+	cfMax, _, _ := kv.SplitInternalKey(t.MaxKey())
+	return fmt.Sprintf("%d[%d.%s@%d..%d.%s@%d]#%d", t.fid, cfMin, hex.EncodeToString(minU), minTs,
+		cfMax, hex.EncodeToString(maxU), maxTs, t.KeyCount())
+}
+
+// VerifShape dumps the table placement: per level the main tables (in list order) and the
+// ingest tables (in shard/list order), each as fid[min..max]#keys.
+func (lsm *LSM) VerifShape() string {
+	var sb strings.Builder
+	lsm.lock.RLock()
+	fmt.Fprintf(&sb, "imm=%d", len(lsm.immutables))
+	lsm.lock.RUnlock()
+	for _, lh := range lsm.levels.levels {
+		lh.RLock()
+		if len(lh.tables) > 0 || lh.ingest.tableCount() > 0 {
+			fmt.Fprintf(&sb, " L%d:", lh.levelNum)
+			var parts []string
+			for _, t := range lh.tables {
+				parts = append(parts, verifTableDesc(t))
+			}
+			sb.WriteString(strings.Join(parts, ","))
+			if lh.ingest.tableCount() > 0 {
+				sb.WriteString("|ingest:")
+				parts = parts[:0]
+				for _, t := range lh.ingest.allTables() {
+					parts = append(parts, verifTableDesc(t))
+				}
+				sb.WriteString(strings.Join(parts, ","))
+			}
+		}
+		lh.RUnlock()
+	}
+	return sb.String()
+}
+
+// VerifPlacement returns "level/ingest?" per file id, for detecting background interference.
+func (lsm *LSM) VerifPlacement() map[uint64]string {
+	out := map[uint64]string{}
+	for _, lh := range lsm.levels.levels {
+		lh.RLock()
+		for _, t := range lh.tables {
+			out[t.fid] = fmt.Sprintf("L%d", lh.levelNum)
+		}
+		for _, t := range lh.ingest.allTables() {
+			out[t.fid] = fmt.Sprintf("L%di", lh.levelNum)
+		}
+		lh.RUnlock()
+	}
+	return out
+}
+
+// VerifCounts returns (#L0 tables, #ingest tables of level, #main tables of level) and the
+// levels other than 0 and `level` that hold any table.
+func (lsm *LSM) VerifCounts(level int) (l0, ing, main int, others []int) {
+	for _, lh := range lsm.levels.levels {
+		lh.RLock()
+		switch lh.levelNum {
+		case 0:
+			l0 = len(lh.tables)
+		case level:
+			ing = lh.ingest.tableCount()
+			main = len(lh.tables)
+		default:
+			if len(lh.tables) > 0 || lh.ingest.tableCount() > 0 {
+				others = append(others, lh.levelNum)
+			}
+		}
+		lh.RUnlock()
+	}
+	sort.Ints(others)
+	return
+}
